@@ -466,9 +466,13 @@ def make_oracle_c13(f_of):
                 or run.seen[0][2] != "Y":
             return
         cfg = ctx["cfg"]
-        if cfg.get("min", 1) != 1 or cfg.get("repeat", "last") == "never" or cfg.get("limit") is not None \
-                or cfg.get("move"):
+        if cfg.get("min", 1) != 1 or cfg.get("repeat", "last") == "never" or cfg.get("move"):
             return
+        if cfg.get("limit") is not None:
+            # a limit that was never exceeded by any reading of the (scripted) clock changes nothing
+            ks = [v for kind, v in (getattr(run, "timeline", None) or []) if kind == "K"]
+            if any(v > ks[0] + cfg["limit"] for v in ks[1:]):
+                return
         f = f_of(ctx, run)
         if f is None:
             return
